@@ -1,7 +1,25 @@
 CFG = dict(
     id="C08", props="Props/C08.v", harness="c08", shims=["c2__cfg--c09.go"], check_fn="scheck",
-    trusted_base=[],
-    assumptions=[],
-    level_text="",
-    level_note="",
+    trusted_base=[
+        "Go's crypto/tls.X509KeyPair, crypto/x509 AppendCertsFromPEM, crypto/aes.NewCipher, wrapper.NewBlock (the CONTENTS of certificates/keys are outside the model: one observed flag `tlsok`; "
+        "theorems take tlsok = true; the byte ranges handed to them are modelled and compared)",
+        "Go map iteration order in ConnectWC2 is an input: the Coq term lists the headers in the order the real constructor emitted them (read back from its bytes); crypto/rand IV of WrapAES(k, nil) likewise",
+        "the overlay shim c2__cfg--c09.go (VerifDump: reflection over the built profile / connector / wrapper / transform values) and harness/c09/cfgx",
+        "byte strings of 65535 bytes are compared by digest (length, sum, sum of running sums), computed on both sides, instead of literally",
+        "int is 64 bit (offset sums cannot wrap)",
+    ],
+    assumptions=[
+        "`wf_setting`: arguments in their documented domains - byte strings of ANY length (clamps at 65535 / 255 are modelled), valid work hours, AES key 16/24/32 bytes with a 16 byte IV, non-empty XOR key / DNS names / "
+        "header names, at most 255 headers, not all TLS blobs empty (documented build error); `wf_group`: at most one connector and one transform per group",
+        "certificate / key parsing succeeds (tlsok = true) in build_pack / build_groups, as the property states",
+    ],
+    level_text="Eighteen theorems over the Gallina model of the public constructors (setting.go, connect.go, wrap.go, transform.go, workhours.go), Pack/AddGroup and the parser (Config.next/build/validate/Groups/Group, "
+               "MarshalBinary) for ALL setting lists, ALL argument lengths (0 .. beyond the 65535/255 clamps), ALL offsets and ALL groupings: the stride of an encoded setting is its length at every offset (next_enc); "
+               "Build(Pack(ss)) and Build of any AddGroup sequence are exactly the meaning of the settings (hosts, keys, wrappers in order; last sleep/jitter/weight/kill date/work hours/selector wins; connector; transform; "
+               "entries by descending weight); validate iff build, and both succeed in the documented domains; Groups/Group partition ANY byte string at its separators; MarshalBinary is the source; "
+               "plus four `_refuted` theorems about copies of the pinned tree's expressions (the four defects repaired by fix: commits). Tied to /repo by ~2000 (quick) / ~30k (thorough) setting lists built with the "
+               "REAL constructors (every length-prefixed family x lengths {0,1,2,254,255,256,257,511,512,65534,65535} x offsets that make offset+header+low byte carry, offset sweep 0..300, random groups with every "
+               "selector), the real Pack/AddGroup/Build/Validate/Groups/Group/MarshalBinary, a Go-side oracle comparing the built profile with what was supplied, and the same model functions evaluated in Coq.",
+    level_note="Proof is about the model (which follows the tree after the four C08 and three C09 fix: commits); the tie to the code is differential (distribution in the evidence). "
+               "Trusted: Coq kernel+vm_compute, the harness and shim, Go's TLS/x509/aes parsers. No axioms (every theorem is closed under the global context).",
 )
